@@ -170,6 +170,11 @@ Theorem fatal_alert_surfaced_in_handshake : forall s l d rest,
              sess s' = option_map (fun _ => false) (sess s).
 Proof. exact hs_recv_fatal. Qed.
 
+(* the model's loops are totalised with fuel; running out would be the outcome OFuel, which
+   no theorem above accepts as a normal return or an exception -- and it never happens *)
+Theorem model_never_out_of_fuel : forall s ev, snd (step s ev) <> OFuel.
+Proof. exact step_no_fuel. Qed.
+
 (* ---- the hypotheses are satisfiable by states that real histories reach ------------------- *)
 Example ex_orderly : closed ex_open_cn = false /\ hs ex_open_cn = false /\ wq ex_open_cn = [] /\ bufw ex_open_cn = false /\
   inq ex_open_cn = [IData [1; 2]; IAlert 1 0] /\ sess ex_open_cn = Some true.
